@@ -307,10 +307,12 @@ impl AddressRange {
     }
 
     pub(crate) fn limited_count(self, limit: u16) -> Result<Self, InvalidRange> {
-        if self.count > limit {
-            return Err(InvalidRange::CountTooLargeForType(self.count, limit));
+        // the fields are public, so a range built as a struct literal was never validated
+        let range = Self::try_from(self.start, self.count)?;
+        if range.count > limit {
+            return Err(InvalidRange::CountTooLargeForType(range.count, limit));
         }
-        Ok(self)
+        Ok(range)
     }
 }
 
